@@ -699,6 +699,16 @@ class Model:
             # N.B. Any parameter expression elimination must be done first.
             symbols = self._symbols(self.constants)
             values = [v.value for v in self.constants]
+
+            # The value of a constant may refer to other constants, which are
+            # replaced (and removed) here as well.
+            for _ in range(SUBSTITUTE_LOOP_LIMIT):
+                if not any(
+                    isinstance(v, ca.MX) and ca.depends_on(v, ca.veccat(*symbols)) for v in values
+                ):
+                    break
+                values = ca.substitute([ca.MX(v) for v in values], symbols, values)
+
             if len(self.equations) > 0:
                 self.equations = ca.substitute(self.equations, symbols, values)
             if len(self.initial_equations) > 0:
